@@ -536,6 +536,7 @@ var rdModes = map[string]rdMode{
 	"smooth":   {name: "smooth", wDelPC: 40, wDelCC: 40, wOldPC: 1, wOldCC: 1, wTickPC: 2, wTickCC: 2, wProd: 30, wCons: 30, dupKeep: 2, reorder: 3, gapok: 80},
 	"lossy":    {name: "lossy", wDelPC: 26, wDelCC: 26, wDropPC: 7, wDropCC: 9, wOldPC: 6, wOldCC: 8, wTickPC: 6, wTickCC: 12, wProd: 22, wCons: 20, wStaleConf: 3, dupKeep: 25, reorder: 40, gapok: 50},
 	"slowcons": {name: "slowcons", wDelPC: 30, wDelCC: 40, wDropCC: 4, wOldCC: 6, wTickPC: 3, wTickCC: 5, wProd: 35, wCons: 5, dupKeep: 10, reorder: 50, gapok: 50},
+	"badendpoint": {name: "badendpoint", wDelPC: 26, wDelCC: 26, wDropPC: 5, wDropCC: 6, wOldPC: 4, wOldCC: 6, wTickPC: 6, wTickCC: 10, wProd: 22, wCons: 20, wStaleConf: 3, wBadEndpoint: 1, dupKeep: 20, reorder: 30, gapok: 50},
 	"hostile":  {name: "hostile", wDelPC: 24, wDelCC: 24, wDropPC: 5, wDropCC: 5, wOldPC: 5, wOldCC: 5, wTickPC: 6, wTickCC: 8, wProd: 20, wCons: 18, wStaleConf: 4, wRaw: 9, wBadEndpoint: 2, dupKeep: 20, reorder: 30, gapok: 50},
 }
 
